@@ -2647,7 +2647,7 @@ fn facility_to_string(facility: Facility) -> String {
         LOG_NTP => "ntp",
         LOG_AUDIT => "audit",
         LOG_ALERT => "alert",
-        LOG_CLOCK_DAEMON => "clockdaemon",
+        LOG_CLOCK_DAEMON => "clock_daemon",
         LOG_LOCAL0 => "local0",
         LOG_LOCAL1 => "local1",
         LOG_LOCAL2 => "local2",
